@@ -6,7 +6,11 @@ Correspondence (model: lean/Yaql/Model/Convert.lean, driver Drv/C10.lean):
     elements and as dict keys) handed to `$` with yaql.convertInputData off, under the 4
     combinations of convertTuplesToLists x convertSetsToLists and several yaql.limitIterators;
  B. random host documents (JSON-like, and tuples / sets / generators / frozensets / views of such)
-    through `$` with input conversion on (the round trip);
+    through `$` with input conversion on (the round trip) - entering by `evaluate(data=doc)`, by
+    `yaql.create_context(data=doc)` + `evaluate(context=..)`, by `YaqlInterface(ctx, engine)('$1', doc)`;
+    half of the iterators, and 300 documents of their own (`gen_lazy_doc`), are LAZILY BUILT: generators that
+    build a sub-document per item, zip / enumerate / map(list, ..) / dict.items() of a temporary - one-shot
+    iterables, at the root and nested, whose items die as soon as the converter drops them;
  C. a pool of yaql expressions producing every kind of value the library returns, nested in each
     other; the unfinalised value is snapshotted with yaql.convertOutputData off and the model is
     asked what the finaliser makes of it.
@@ -45,13 +49,15 @@ from yaql.language import utils as yutils
 from yaql.standard_library import queries as yqueries
 
 ID = 'C10'
-LEAN_MODULES = ['Yaql.Props.C10', 'Yaql.Props.C10Hist']
+LEAN_MODULES = ['Yaql.Props.C10', 'Yaql.Props.C10Hist', 'Yaql.Props.C10Ident', 'Yaql.Props.C10Opts']
 REQUIRED_THEOREMS = ['Yaql.Props.C10.' + n for n in (
     'convOut_spec', 'plain', 'plain_root', 'plain_no_frozen_dict', 'succeeds_iff', 'succeeds_iff_lim',
     'outHashable_eq', 'fails_only_unhashable', 'total_partial', 'roundtrip', 'roundtrip_ext', 'roundtrip_only',
     'roundtrip_json', 'roundtrip_default', 'convIn_wf', 'current_fails', 'current_fails_full',
     'current_fails_unsatisfiable', 'k1_other_options', 'k1_roundtrip', 'views_finalise', 'views_finalise_of_dict',
-    'views_documented', 'history_spec', 'roundtrip_history', 'roundtrip_history_default', 'memo_breaks_roundtrip')]
+    'views_documented', 'history_spec', 'roundtrip_history', 'roundtrip_history_default', 'memo_breaks_roundtrip',
+    'convIn_identity_free', 'memo_sound', 'memo_sound_empty', 'memo_breaks_transient_items', 'engine_options_fixed',
+    'later_updates_invisible', 'view_follows_the_host')]
 TRUSTED = ['Python hashing modelled by the predicate `hashable` (list/dict/set/dict_keys/dict_items unhashable; '
            'tuples and FrozenDicts hash their content; iterators, values views and ordering objects hash by identity)',
            'set / dict de-duplication is not modelled: on every successful path the conversion of hash-position '
@@ -107,6 +113,8 @@ def penc(v):
     t = type(v)
     if id(v) in SRC:
         kind, items = SRC[id(v)][:2]
+        if items is None:           # items that exist only while the host iterable is consumed: their recorded encoding
+            return {'q': kind, 'l': SRC[id(v)][3]}
         return {'q': kind, 'l': [penc(x) for x in items]}
     if t is tuple:
         return {'q': 'tuple', 'l': [penc(x) for x in v]}
@@ -167,6 +175,8 @@ def build(j, rng=None, memo=None):
             memo[key] = o
         return o
     k = j['q']
+    if k == 'iter' and j.get('how') in FRESH_HOWS:
+        return build_fresh(j)
     items = [build(x, rng, memo) for x in j['l']]
     if k == 'tuple':
         return tuple(items)
@@ -198,6 +208,113 @@ def build(j, rng=None, memo=None):
         SRC[id(o)] = ('vview', items, o)
         return o
     raise ValueError(j)
+
+
+# A host document need not be a finished object graph.  Hosts hand over generators that BUILD a sub-document per item, `zip` /
+# `enumerate` / `map` objects, `dict.items()` of a temporary: one-shot iterables whose items come into being when they are
+# pulled and DIE as soon as the consumer drops them (the next item is then often allocated at the same address).  `how`
+# on an 'iter' node says how the host makes it; the content is the same as for an iterator over a finished list.
+FRESH_HOWS = ('fresh-gen', 'fresh-map', 'zip', 'enumerate', 'items', 'map-list')
+
+
+def _pairs_shape(items):
+    return all((not is_scalar_j(x)) and x.get('q') == 'tuple' and len(x['l']) == 2 for x in items)
+
+
+def fresh_how_ok(how, items):
+    """does the content have the shape this kind of host iterable yields"""
+    if how in ('zip', 'items'):
+        if not _pairs_shape(items):
+            return False
+        if how == 'items':
+            if not all(is_scalar_j(x['l'][0]) for x in items):
+                return False
+            try:
+                return len({dec_scalar(x['l'][0]): 0 for x in items}) == len(items)      # distinct as dictionary keys
+            except TypeError:
+                return False
+        return True
+    if how == 'enumerate':
+        return _pairs_shape(items) and all(x['l'][0] == {'i': str(i)} for i, x in enumerate(items))
+    if how == 'map-list':
+        return all((not is_scalar_j(x)) and x.get('q') == 'list' for x in items)
+    return True
+
+
+def build_fresh(j):
+    """a host iterable that creates its items WHILE it is consumed; nothing keeps an item alive once the consumer has
+    dropped it.  The recorded encoding of the content (`SRC`) comes from a copy built separately."""
+    how, parts = j['how'], j['l']
+    if not fresh_how_ok(how, parts):
+        how = 'fresh-gen'
+    enc_items = [penc(build(x)) for x in parts]
+    if how == 'fresh-gen':
+        o = (build(x) for x in parts)
+    elif how == 'fresh-map':
+        o = map(build, parts)
+    elif how == 'zip':
+        o = zip([build(x['l'][0]) for x in parts], [build(x['l'][1]) for x in parts])
+    elif how == 'enumerate':
+        o = enumerate([build(x['l'][1]) for x in parts])
+    elif how == 'items':
+        o = iter({build(x['l'][0]): build(x['l'][1]) for x in parts}.items())
+    else:       # map-list
+        o = map(list, [tuple(build(y) for y in x['l']) for x in parts])
+    SRC[id(o)] = ('iter', None, o, enc_items)
+    return o
+
+
+def with_fresh(rng, j, p=0.5):
+    """the same content, with the one-shot iterables in it made the way a host makes them (items built on the fly)"""
+    if is_scalar_j(j):
+        return j
+    if 'm' in j:
+        return dict(j, l=[[with_fresh(rng, k, p), with_fresh(rng, v, p)] for k, v in j['l']])
+    out = dict(j, l=[with_fresh(rng, x, p) for x in j['l']])
+    if j['q'] == 'iter' and rng.random() < p:
+        hows = [h for h in FRESH_HOWS if fresh_how_ok(h, out['l'])]
+        shaped = [h for h in hows if h not in ('fresh-gen', 'fresh-map')]
+        out['how'] = rng.choice(shaped) if shaped and rng.random() < 0.7 else rng.choice(hows)
+    return out
+
+
+def gen_lazy_doc(rng, depth, top=True):
+    """a host document that is - or contains - lazily built iterables of freshly made containers: a generator of
+    records, zip / enumerate / dict.items() / map(list, ..) of sub-documents, at the root and nested"""
+    def sub(d):
+        return gen_doc(rng, d, False) if rng.random() < 0.6 else gen_lazy_doc(rng, d, False)
+    n = rng.choice([2, 3, 3, 4, 6, 9])
+    if depth <= 0:
+        return enc_scalar(rng.choice(SCALARS))
+    how = rng.choice(FRESH_HOWS) if (top or rng.random() < 0.6) else None
+    if how is None:
+        k = rng.choice(['list', 'dict', 'tuple'])
+        if k == 'dict':
+            return {'m': 'dict', 'l': [[enc_scalar('k%d' % i), sub(depth - 1)] for i in range(n)]}
+        return {'q': k, 'l': [sub(depth - 1) for _ in range(n)]}
+
+    def container(d):
+        c = rng.choice(['list', 'dict', 'list', 'tuple'])
+        m = rng.choice([0, 1, 1, 2, 3])
+        if c == 'dict':
+            return {'m': 'dict', 'l': [[enc_scalar(rng.choice(['a', 'b', 'id', 'n'])), sub(d - 1) if d > 1 else enc_scalar(rng.choice(SCALARS))]
+                                       for _ in range(m)][:1 + rng.randrange(2)]}
+        return {'q': c, 'l': [sub(d - 1) if d > 1 else enc_scalar(rng.choice(SCALARS)) for _ in range(m)]}
+    if how in ('fresh-gen', 'fresh-map'):
+        items = [container(depth) for _ in range(n)]
+    elif how == 'zip':
+        items = [{'q': 'tuple', 'l': [enc_scalar(rng.choice(SCALARS)) if rng.random() < 0.5 else container(depth), container(depth)]}
+                 for _ in range(n)]
+    elif how == 'enumerate':
+        items = [{'q': 'tuple', 'l': [enc_scalar(i), container(depth) if rng.random() < 0.7 else enc_scalar(rng.choice(SCALARS))]}
+                 for i in range(n)]
+    elif how == 'items':
+        keys = rng.sample(['a', 'b', 'c', 'key', '', 'id', 'n', 1, 2, 7, None], min(n, 8))
+        items = [{'q': 'tuple', 'l': [enc_scalar(k), container(depth) if rng.random() < 0.7 else enc_scalar(rng.choice(SCALARS))]}
+                 for k in keys]
+    else:
+        items = [{'q': 'list', 'l': [enc_scalar(rng.choice(SCALARS)) for _ in range(rng.choice([0, 1, 2, 2]))]} for _ in range(n)]
+    return {'q': 'iter', 'how': how, 'l': items}
 
 
 # ----------------------------------------------------- plain-Python transcription of the documented meaning
@@ -387,6 +504,8 @@ def gen_doc(rng, depth, ext):
     return {'q': k, 'l': [gen_doc(rng, depth - 1, ext) for _ in range(n)]}
 
 
+ENTRIES_B = ('evaluate', 'evaluate', 'create_context', 'iface')
+
 # expression pool: (expression template, number of holes).  A hole is filled by another pool expression.
 ATOMS = ['1', "'a'", 'null', 'true', '2.5',
          '[1, 2]', '[]', "list(1, 'a')",                                  # tuples
@@ -453,6 +572,7 @@ class Real:
         self.factory = yaql.YaqlFactory()
         self.root = yaql.create_context()
         self.engines = {}
+        self.host_opts = {}
 
     def engine(self, t2l, s2l, lim, conv_in, conv_out=True):
         key = (t2l, s2l, lim, conv_in, conv_out)
@@ -464,11 +584,26 @@ class Real:
                 opts = {'yaql.convertInputData': conv_in}
             if lim is not None:
                 opts['yaql.limitIterators'] = lim
-            self.engines[key] = (self.factory.create(options=opts), {})
+            # the host builds all its engines from ONE option dict of its own, which it fills anew for every engine and goes
+            # on changing afterwards ("options cannot be changed after the engine is created": the engine has its own copy)
+            self.host_opts.clear()
+            self.host_opts.update(opts)
+            eng = self.factory.create(options=self.host_opts)
+            self.host_opts.update({'yaql.convertTuplesToLists': not t2l, 'yaql.convertSetsToLists': not s2l,
+                                   'yaql.convertInputData': not conv_in, 'yaql.convertOutputData': not conv_out})
+            self.host_opts.pop('yaql.limitIterators', None)
+            self.engines[key] = (eng, {})
         return self.engines[key]
 
-    def evaluate(self, expr, data, t2l, s2l, lim, conv_in, conv_out=True):
+    def evaluate(self, expr, data, t2l, s2l, lim, conv_in, conv_out=True, entry='evaluate'):
         eng, cache = self.engine(t2l, s2l, lim, conv_in, conv_out)
+        if entry == 'create_context':
+            # the host binds the document itself: `yaql.create_context(data=doc)` converts it at bind time
+            ctx = yaql.create_context(data=data)
+            return eng(expr).evaluate(context=ctx if zlib.crc32(expr.encode('utf8')) % 2 else ctx.create_child_context())
+        if entry == 'iface':
+            from yaql import yaql_interface
+            return yaql_interface.YaqlInterface(self.root.create_child_context(), eng)(paths.iface_text(expr), data)
         # how the engine with these options came to be: built by the factory (half of the texts), or derived from a
         # base engine WITHOUT them that has parsed the same text before - engine.copy(options) / engine(text, options)
         via = zlib.crc32(expr.encode('utf8')) % 4
@@ -480,6 +615,7 @@ class Real:
                 pass
             opts = dict(eng.options)
             st = base.copy(opts)(expr) if via == 2 else base(expr, options=opts)
+            opts.clear()            # (the host's dict again: emptied once the statement exists)
             return st.evaluate(data=data, context=self.root.create_child_context())
         st = cache.get(expr)
         if st is None:
@@ -503,9 +639,9 @@ def classify_exc(e, tb):
     return 'other', '%s: %s [%s]' % (type(e).__name__, e, where)
 
 
-def run_real(real, expr, data, t2l, s2l, lim, conv_in):
+def run_real(real, expr, data, t2l, s2l, lim, conv_in, entry='evaluate'):
     try:
-        r = real.evaluate(expr, data, t2l, s2l, lim, conv_in)
+        r = real.evaluate(expr, data, t2l, s2l, lim, conv_in, entry=entry)
     except Exception as e:      # noqa
         return ('exc',) + classify_exc(e, sys.exc_info()[2])
     return ('ok', r)
@@ -583,7 +719,11 @@ def run_case(real, drv, res, case, hist):
             obj = build(case['v'], common.make_rng(case.get('bseed', 0), 'build'))
             src_j = penc(obj)                      # what Python made of it (sets de-duplicated)
             raw_j = py_in(src_j) if mode == 'B' else src_j
-            out = run_real(real, '$', obj, t2l, s2l, lim, conv_in=(mode == 'B'))
+            # how the document enters (mode B; all of these convert the input): `evaluate(data=doc)`, a context bound with
+            # `yaql.create_context(data=doc)`, `YaqlInterface(ctx, engine)('$1', doc)`
+            entry = case.get('entry', 'evaluate') if mode == 'B' else 'evaluate'
+            hist['entry:' + entry] = hist.get('entry:' + entry, 0) + 1
+            out = run_real(real, '$', obj, t2l, s2l, lim, conv_in=(mode == 'B'), entry=entry)
             reqs.append({'op': 'rt' if mode == 'B' else 'out', 't2l': t2l, 's2l': s2l, 'lim': lim, 'v': src_j})
         else:
             try:
@@ -1131,6 +1271,7 @@ def run(env, res):
         res.extra['histogram'] = hist
         return res
     nA, nB, nC = (900, 500, 500) if tier == 'quick' else (20000, 10000, 8000)
+    nL = 300 if tier == 'quick' else 6000
 
     def count_kinds(j):
         if is_scalar_j(j):
@@ -1150,6 +1291,13 @@ def run(env, res):
                                               '[2,1].orderBy($)', '[1,2,1].groupBy($)', '{a=>1}.values()')]
     fixed += [dict(mode='C', expr=e, expect=x) for e, x in DOCUMENTED]
     fixed += [dict(mode='B', v=penc(d)) for d in ({'a': [1, {'b': None}], 'c': 'x'}, [(1, 2), {3}], {(1, 2)}, [frozenset([1])])]
+    for how, content in (('zip', [('a', [1]), ('b', [2]), ('c', [3])]), ('enumerate', [(0, {'k': 1}), (1, {'k': 2}), (2, {'k': 3})]),
+                         ('items', [('a', [1]), ('b', [2, 3]), ('c', [])]), ('fresh-gen', [{'id': i} for i in range(8)]),
+                         ('map-list', [[1, 2], [3, 4], [5]])):
+        v = dict(penc(iter(content)), how=how)
+        for entry in ('evaluate', 'create_context', 'iface'):
+            fixed.append(dict(mode='B', v=v, entry=entry))
+        fixed.append(dict(mode='B', v={'m': 'dict', 'l': [[enc_scalar('rows'), v], [enc_scalar('n'), enc_scalar(3)]]}))
     for case in fixed:
         run_case(real, drv, res, case, hist)
         after(case, case['mode'], True, show(case['v']) if 'v' in case else case['expr'])
@@ -1165,11 +1313,24 @@ def run(env, res):
     for i in range(nB):
         ext = i % 2 == 1
         v = gen_doc(rng, rng.choice([2, 3, 4]), ext)
+        if ext:
+            v = with_fresh(rng, v)
         lims = [None] if i % 4 else [None, rng.choice([0, 1, 2, 3])]
-        case = dict(mode='B', v=v, lims=lims, bseed=rng.randrange(1 << 30))
+        case = dict(mode='B', v=v, lims=lims, bseed=rng.randrange(1 << 30), entry=rng.choice(ENTRIES_B))
         d = count_kinds(v)
         run_case(real, drv, res, case, hist)
         after(case, 'B', d >= 2, show(v) if i < 2 else None)
+    # lazily built host documents: one-shot iterables (at the root and nested) whose items - freshly made containers -
+    # exist only while the converter looks at them
+    for i in range(nL):
+        v = gen_lazy_doc(rng, rng.choice([2, 2, 3]))
+        mode = 'A' if i % 5 == 4 else 'B'
+        case = dict(mode=mode, v=v, lims=[None] if i % 4 else [None, rng.choice([1, 2, 3, 10])], bseed=rng.randrange(1 << 30),
+                    entry=rng.choice(ENTRIES_B))
+        d = count_kinds(v)
+        hist['lazily-built:' + v.get('how', 'nested')] = hist.get('lazily-built:' + v.get('how', 'nested'), 0) + 1
+        run_case(real, drv, res, case, hist)
+        after(case, mode, d >= 2, show(v) if i < 2 else None)
     evaluated = 0
     for i in range(nC):
         e = gen_expr(rng, rng.choice([1, 2, 2, 3]))
@@ -1226,7 +1387,11 @@ LEVEL_TEXT = ('Lean 4 theorems over a code-shaped model of utils.convert_input_d
               'roundtrip_history (= canon o of that document), memo_breaks_roundtrip (a statement remembering its last input '
               'does not satisfy it); the harness runs generated host histories on the real code (same Statement object, fresh '
               'parses, engine.copy / per-call options / YaqlInterface paths) against that model.')
-LEVEL_NOTE = ('trusted: Lean kernel; hand-written model Yaql/Model/Convert.lean; Python hashing as the predicate '
+LEVEL_NOTE = ('(round 5: host documents that are, or contain, LAZILY BUILT iterables - generators / zip / enumerate / map / '
+              'dict.items() whose items exist only while the converter looks at them - go through `$` by evaluate(data), '
+              'create_context(data) and YaqlInterface; convIn_identity_free: the converted content does not depend on the '
+              'addresses of the host\'s objects; memo_sound / memo_breaks_transient_items: an id()-keyed memo is right exactly for '
+              'documents whose objects are all alive at once.)  trusted: Lean kernel; hand-written model Yaql/Model/Convert.lean; Python hashing as the predicate '
               '`hashable`; set/dict de-duplication not modelled (injective on success paths); the differential harness '
               'and its plain-Python transcription of the renaming. Known finding K1 (unhashable-in-hash-position) is '
               'reported as KNOWN-FINDING; every other finalisation failure or leftover lazy/frozen container is a violation.')
